@@ -14,7 +14,7 @@ CHECKS = {
          'Trusted: the harness oracle (self-tested on the RFC tables); serde_json sorted member order is the document order of a Value; size bounds as for C01.', 'DESIGN.md section 4 C02'),
  'C11': ('bounded-exhaustive enumeration plus property-based random cases against the RFC slice pseudo-code in 128-bit arithmetic',
          'Every slice (start,end in absent/-10..10, step in absent/-4..4) and index on arrays of length 0..8 is enumerated completely, boundary values (+-(2^53-1), +-2^31, +-len+-1 ...) are placed in every position, non-array targets are swept, and random nested / large (<= 300) arrays are sampled; the ordered index sequence and the reported paths must equal the RFC pseudo-code. Exhaustive inside the stated boxes, exploration outside.',
-         'Trusted: slice_indices() (transcription of RFC 9535 2.3.4.2.2, self-tested on the RFC examples); termination judged by a 20 s watchdog around each library call.', 'DESIGN.md section 4 C11'),
+         'Trusted: slice_indices() (transcription of RFC 9535 2.3.4.2.2, self-tested on the RFC examples); termination judged by a 40 s watchdog around each library call.', 'DESIGN.md section 4 C11'),
  'C03': ('property-based testing with an independent location oracle (pointer identity) and RFC 2.7 path normaliser; round-trip (re-query of every reported path) and injectivity checks; known findings K2/K3 attributed by quirk model',
          'Random documents with hostile member names and queries over every route; each reported (node, path) pair is compared with the normalized path of the location found by address, equal paths must mean equal nodes, and every reported path is run as a query and must return exactly that node with that path. Also `$..*` over every generated document. Exploration only.',
          'Trusted: normalized_path() (self-tested on the RFC examples), the recogniser used to read reported paths back into the oracle, size bounds as for C01.', 'DESIGN.md section 4 C03'),
@@ -34,7 +34,7 @@ CHECKS = {
          'Valid sentences are mutated by 1-3 token or character edits, ill-typed/mis-aritied function calls are built on the AST and embedded in valid queries, and a targeted box places every forbidden integer form, blank, string form and filter form into every position that takes one; whatever the recogniser classifies Invalid must be rejected by parse_json_path and by JsonPath::query. Strings the recogniser does not judge (extension function names, literals beyond I-JSON, blanks inside singular-query brackets) are counted and skipped. Exploration only (the targeted box is enumerated completely).',
          'Trusted: the recogniser (hand-written from RFC 9535 Appendix A, 2.1, 2.4; self-tested; cross-validated against the C06 generators on every run of C06).', 'DESIGN.md section 4 C07'),
  'C08': ('fuzz-style property testing in-process (catch_unwind, overflow checks, PEG call-budget meter, per-call watchdog) over generated valid / mutated / arbitrary inputs and extreme integers, plus scaling probes in isolated child processes; known findings K6/K7 attributed by input class + failure kind',
-         'Every generated input runs through all seven public entry points; a panic, an abort, a PEG call budget overrun, a call that does not return within 20 s, disagreement between entry points about Ok/Err, or an Err from evaluating a successfully parsed query is a violation. Stack exhaustion and parse-work blow-up are probed in child processes at sizes 8..65536. Exploration only; absence of hangs cannot be established by this technique and is approximated by the budgets stated in the evidence.',
+         'Every generated input runs through all seven public entry points; a panic, an abort, a PEG call budget overrun, a call that does not return within 40 s, disagreement between entry points about Ok/Err, or an Err from evaluating a successfully parsed query is a violation. Stack exhaustion and parse-work blow-up are probed in child processes at sizes 8..65536. Exploration only; absence of hangs cannot be established by this technique and is approximated by the budgets stated in the evidence.',
          'Trusted: pest::set_call_limit as a deterministic parse-work meter; 8 MiB stack as the reference environment for the probes; bulk inputs have nesting <= 40.', 'DESIGN.md section 4 C08'),
  'C09': ('model-based property testing: every node location of generated documents (pointer identity for reads, whole-document model comparison for writes), derived non-existent locations, and generated write histories against an in-memory model; known finding K3 attributed by model',
          'For every node of documents with JSON-Pointer-hostile and escape-needing member names, reference(normalized path) must return that node by address and a write through reference_mut must equal the model (replace the subtree, nothing else); locations that do not exist (index = len, numeric name on an array, index on an object, a/b and ~1 confusions, steps below scalars) must give None and leave the document unchanged; histories of up to 6 writes through the paths of one query are replayed against the model step by step. Exploration only.',
